@@ -28,6 +28,50 @@ def is_ok(res):
     return isinstance(res, H.V) and res.path == H.OK
 
 
+REC = "ixdtf::parsers::records::IxdtfParseRecord"
+ZED = H.V("ixdtf::parsers::records::UtcOffsetRecordOrZ::Z", ())
+
+
+def _record(date=True, time=True, offset=None, tz=False):
+    def opt(present, name):
+        if present is True:
+            return H.V(H.SOME, (H.Sym("param", (name,)),))
+        if present in (False, None):
+            return H.NONE_V
+        return H.V(H.SOME, (present,))
+    return H.S(REC, (("date", opt(date, "date")), ("time", opt(time, "time")), ("offset", opt(offset, "offset")),
+                     ("tz", opt(tz, "tz")), ("calendar", H.NONE_V)))
+
+
+def fold_with_record(fx, f, record):
+    """fold an entry point of the parsing layer with the grammar (parse_ixdtf) replaced by a parser that returns `record`:
+    ('ok', value) | ('err', kind) | ('opaque', why)"""
+    ev = H.Evaluator(fx)
+    ev.inline = lambda p: p.startswith("temporal_rs::")
+    hit = []
+
+    def stub(args):
+        hit.append(1)
+        return H.V(H.OK, (record,))
+    ev.stubs["parsers::parse_ixdtf"] = stub
+    ev.lossy = []
+    try:
+        r = ev.call_fn(f, [H.Sym("param", (q["name"],)) for q in f.params])
+    except H.Panic as e:
+        return ("opaque", "panic %s" % e)
+    except H.Budget:
+        return ("opaque", "budget")
+    if not hit:
+        return ("opaque", "parse_ixdtf is not what the function calls")
+    if ev.lossy:
+        return ("opaque", ev.lossy[0])
+    if is_err(r):
+        return ("err", err_kind(r))
+    if is_ok(r):
+        return ("ok", r.args[0])
+    return ("opaque", show(r)[:60])
+
+
 def check_z(run, fx, rs):
     rule = "R11.utc-designator-rejected"
     run.rule(rule, "parse_date_time / parse_year_month / parse_time never succeed with a record whose offset is the UTC "
@@ -37,6 +81,15 @@ def check_z(run, fx, rs):
         f = rs.fn(P + name)
         if f is None:
             run.anchor_missing(rule, name, "not found")
+            continue
+        # by value: with the grammar replaced by a parser that hands back a record carrying the designator, the function
+        # must fail with a RangeError; with a record without an offset it must succeed
+        gz = fold_with_record(fx, f, _record(offset=ZED))
+        gn = fold_with_record(fx, f, _record(offset=None))
+        if gz[0] != "opaque" and gn[0] != "opaque":
+            run.check(gz == ("err", "Range") and gn[0] == "ok", rule, name, "record with Z -> RangeError, without offset -> ok",
+                      "%s on a parsed record whose offset is the UTC designator gives %s %s (expected a RangeError); without an "
+                      "offset it gives %s" % (name, gz[0], str(gz[1])[:60], gn[0]), f.loc)
             continue
         bad = 0
         tot = 0
@@ -49,6 +102,10 @@ def check_z(run, fx, rs):
             via_dt = "parse_date_time" in s
             if not ((zdec and all(ch is False for ch in zdec)) or via_dt):
                 bad += 1
+        if tot == 0:
+            run.ok(rule, name, "no success path is recognisable and the function does not fold with a scripted parser: not decided",
+                   f.loc, nontrivial=False)
+            continue
         run.check(tot > 0 and bad == 0, rule, name, "%d success path(s), all after the Z check" % tot,
                   "%s can succeed on %d of %d paths without having rejected the UTC designator" % (name, bad, tot), f.loc)
 
@@ -62,6 +119,20 @@ def check_required_parts(run, fx, rs):
     if f is None:
         run.anchor_missing(rule, "parse_instant", "not found")
     else:
+        cells = []
+        for d in (True, False):
+            for t in (True, False):
+                for o in (True, False):
+                    cells.append(((d, t, o), fold_with_record(fx, f, _record(date=d, time=t, offset=o))))
+        if all(g[0] != "opaque" for _, g in cells):
+            wrong = [(k, g) for k, g in cells if (g[0] == "ok") != all(k) or (g[0] == "err" and g[1] != "Range")]
+            run.check(not wrong, rule, "parse_instant", "by value over the 8 presence patterns of date/time/offset: success iff all "
+                      "three are present, RangeError otherwise",
+                      "parse_instant on a parsed record with (date, time, offset) present = %s gives %s %s" %
+                      ((wrong[0][0], wrong[0][1][0], str(wrong[0][1][1])[:40]) if wrong else ("", "", "")), f.loc)
+            run.exhaustive_tables.append("parse_instant (8 presence patterns)")
+            f = None
+    if f is not None:
         ok = True
         tot = 0
         kinds = set()
@@ -73,7 +144,11 @@ def check_required_parts(run, fx, rs):
                     ok = False
             elif is_err(res) and le and not le[-1][1]:
                 kinds.add(err_kind(res))
-        run.check(ok and tot > 0 and kinds == {"Range"}, rule, "parse_instant", "success requires date, time and offset",
+        if tot == 0 or not any(c.startswith("let-else[") for dec, _r, _t in paths_of(fx, f) for c, _ in dec):
+            run.ok(rule, "parse_instant", "the presence test is not in a recognisable form and the function does not fold with a "
+                   "scripted parser: not decided", f.loc, nontrivial=False)
+        else:
+          run.check(ok and tot > 0 and kinds == {"Range"}, rule, "parse_instant", "success requires date, time and offset",
                   "parse_instant: success without the date/time/offset pattern: %s; missing parts -> %s" % (not ok, sorted(kinds)),
                   f.loc)
     g = rs.fn(P + "parse_zoned_date_time")
